@@ -399,7 +399,7 @@ func runC16(c *Ctx) {
 		harmless := map[string]bool{
 			"bytes.Buffer.String": true, "bytes.Buffer.Bytes": true, "bytes.Buffer.Len": true, "strings.Builder.String": true,
 			"strings.Builder.WriteString": true, "bytes.Buffer.WriteString": true, "bytes.Buffer.Write": true, "strings.Builder.Write": true,
-			"strings.Join": false,
+			"bytes.Clone": true, "strings.Clone": true, "bytes.NewReader": true, "strings.NewReader": true, "bytes.NewBuffer": true, "bytes.NewBufferString": true,
 		}
 		isRewriter := func(cc *ssa.CallCommon) (string, bool) {
 			name := CalleeName(cc)
